@@ -16,10 +16,12 @@ func handleCEA(sm *StateMachine, errc chan error) diam.HandlerFunc {
 		if _, ok := smpeer.FromContext(c.Context()); ok {
 			// The handshake is complete: errc is closed and nobody is
 			// waiting on it. Ignore duplicate or late CEAs.
+			vevent("cea.ignore", c)
 			return
 		}
 		cea := new(smparser.CEA)
 		if err := cea.Parse(m, smparser.Client); err != nil {
+			vevent("cea.fail", c)
 			errc <- err
 			return
 		}
@@ -31,6 +33,7 @@ func handleCEA(sm *StateMachine, errc chan error) diam.HandlerFunc {
 		default:
 		}
 		// Done receiving and validating this CEA.
+		vevent("cea.ok", c)
 		close(errc)
 	}
 }
